@@ -219,8 +219,16 @@ def _setup_values(k):
         k[name] = mk()
 
 
+# server-side names bound to IMPORTED Python callables (bare KGLambda in the context): fixed arity and wildcard
+PYIMPORTS = {"sqrt": [["16"], ["2.25"]], "floor": [["3.7"]], "pow": [["2", "10"], ["1.5", "2"]],
+             "fmod": [["7.5", "2"]], "atan2": [["1", "2"]], "hypot": [["3", "4"]]}
+WILDCARD_IMPORTS = {"hypot"}          # math.hypot(*coordinates): klongpy sees arity 0
+
+
 def _setup_interp(k):
     _setup_values(k)
+    for n in PYIMPORTS:
+        k(f'.pyf("math";"{n}")')
     for t in SETUP:
         k(t)
     k["pyid"] = lambda x: x
@@ -1051,7 +1059,7 @@ def run_op(ctx, live, drv, op, history):
                                 "asking for a remote function must give a proxy of the arity it has now")
                 return False
             model_line0 = ("apply x=y" + _hex(op["name"])) if via == "f" else f'dget name={op["name"]}'
-            if drv:
+            if drv and not op.get("nomodel"):
                 m0 = drv.ask(model_line0)
                 if not m0.startswith(f"ok res={want} "):
                     ctx.mismatch("Klong.C13.remoteStep vs proxy fetch", case, m0, want)
@@ -1080,7 +1088,7 @@ def run_op(ctx, live, drv, op, history):
         expect, t_undef = "handle", 0
     else:
         got, r_undef = tok(rv), _undef_flag(cli, rv)
-    cls = "undefined" if (has_undef or "U" in expect.split(",")) else "value"
+    cls = op.get("keyclass") or ("undefined" if (has_undef or "U" in expect.split(",")) else "value")
     ok = True
     if got != expect or r_undef != t_undef:
         fail(ctx, f"live:{form}:{cls}", case, f"{expect} undef={t_undef}", f"{got} undef={r_undef}",
@@ -1092,7 +1100,7 @@ def run_op(ctx, live, drv, op, history):
                         "server variables differ from those of the twin after the same operation")
         ok = False
     # ---------------- correspondence with the dispatch model
-    if drv and model_line:
+    if drv and model_line and not op.get("nomodel"):
         m = drv.ask(model_line)
         res = "N" if form == "dset" else got
         und = 1 if form == "dset" else r_undef
@@ -1402,6 +1410,22 @@ def run_function_values(ctx, live, quick):
             ctx.count(("fnvalue", body, called_before))
 
 
+def gen_pyimport_ops(name, args, conn):
+    """f(:name,args), text, proxies and lookups for a server name bound to an imported Python callable
+    (the model's small interpreter has no math library: oracle only)"""
+    base = dict(name=name, es=args, conn=conn, nomodel=True)
+    ops = [dict(base, form="fcall", style="array"),
+           dict(base, form="text-call"),
+           dict(form="sym", name=name, conn=conn, nomodel=True),
+           dict(form="dget", name=name, conn=conn, nomodel=True)]
+    if len(args) == 1:
+        ops.insert(1, dict(base, form="fcall", style="klong"))
+    # a proxy of a wildcard import has arity 0 and drops its arguments (known finding): own class
+    extra = dict(keyclass="wildcard-import") if name in WILDCARD_IMPORTS else {}
+    ops += [dict(base, form="proxy", via="f", **extra), dict(base, form="proxy", via="d", **extra)]
+    return ops
+
+
 def gen_sequence(rng, length):
     ops = []
     for _ in range(length):
@@ -1519,6 +1543,11 @@ def run_live(ctx, drv, live, singleton):
     run_slow_fragments(ctx, live, quick)
     # functions as values of the remote dictionary
     run_function_values(ctx, live, quick)
+    # names bound to imported Python callables (.pyf): every call form, each form as its own short history
+    for name, arglists in PYIMPORTS.items():
+        for args in (arglists[:1] if quick else arglists):
+            for op in gen_pyimport_ops(name, args, rng.randrange(2)):
+                run_sequence(ctx, live, drv, [op], singleton)
     # names bound to projections (fixed argument not leading, nested) and their asymmetric bases
     for name in PROJ:
         for rep in range(1 if quick else 6):
